@@ -1,7 +1,231 @@
-"""Reference-level relations (no implementation involved): conservative extension of the
-reference grammars under the options (C15 i)."""
+"""Reference-level relations, explored on the reference grammars alone (no implementation):
+
+* co-reachability (C11): every non-final reference state has a continuation to Complete;
+* conservative extension (C15 i): on every input the default reference completes, the reference
+  with any option set completes at the same offset with the same fields/headers, except that with
+  allow_multiple_spaces_in_response_status_delimiters the reason may start later.
+
+Both are finite explorations over byte classes of the reference automata in engine/spec.py."""
+import os
+import sys
+
+from .common import F, Program
+from engine.absm import Machine, State, Fork, Violation, Unanalysable, FULL
+from engine import spec as S
+
+
+def fresh(kind, configured):
+    root = ("ParserConfig::parse_%s" % kind) if configured else {"request": "Request::parse", "response": "Response::parse"}.get(kind, kind)
+    if kind in ("headers", "chunk"):
+        root = "parse_headers" if kind == "headers" else "parse_chunk_size"
+    return S.spec_for_root(root, kind)
+
+
+def abstract_key(mon, st):
+    fl = tuple(sorted((k, v) for k, v in mon.flags.items() if k in ("obs", "started")))
+    ns = mon.nstored
+    nz = 0 if (ns[0] == "int" and ns[1] == 0) else 1
+    v = mon.verdict[0] if mon.verdict else None
+    ek = mon.verdict[1] if mon.verdict and mon.verdict[0] == "err" else None
+    env = tuple(sorted((k, val) for k, val in st.env.items() if k.startswith("cfg:")))
+    return (mon.q, fl, nz, v, ek, env)
+
+
+def virtual_store(mon):
+    if mon.pend is not None and mon.q[0] not in ("VE", "WE"):
+        h = mon.pend
+        mon.pend = None
+        if mon.nstored[0] == "int" and mon.nstored[1] == 0:
+            mon.nstored = ("int", 1, 64, False)
+        return h
+    return None
+
+
+def step_all(m, st, mons):
+    """All successors of (st, mons) on one more byte: list of (st', mons', stored headers)."""
+    out = []
+    base = st.clone()
+    c = base.new_cell(FULL)
+    base.tape = [c]
+    work = [(base, [x.clone() for x in mons])]
+    guard = 0
+    while work:
+        guard += 1
+        if guard > 4000:
+            raise Unanalysable("reference exploration: too many class splits")
+        s, ms = work.pop()
+        try:
+            ms2 = [x.clone() for x in ms]
+            stored = [None for _ in ms2]
+            for i, x in enumerate(ms2):
+                # the implementation decides the fold look-ahead (and stores the header) before it
+                # consumes the next byte
+                if x.q[0] in ("VE", "WE"):
+                    x.resolve_lookahead(m, s)
+                    stored[i] = virtual_store(x)
+                x.consume(m, s, s.tape[0], 0)
+            s.tape = []
+            s.advance(1)
+            for i, x in enumerate(ms2):
+                h = virtual_store(x)
+                if h is not None:
+                    stored[i] = h
+            out.append((s, ms2, stored))
+        except Fork as f:
+            for label, refine in f.choices:
+                s2 = s.clone()
+                if refine(s2) is False:
+                    continue
+                work.append((s2, [x.clone() for x in ms]))
+    return out
+
+
+def explore_reference(kind, configured=True, limit=20000):
+    prog = Program(F.get_facts("B0", "debug"))
+    m = Machine(prog)
+    st = State()
+    mon = fresh(kind, configured)
+    init = (st, [mon])
+    graph = {}
+    keys = {}
+    work = [init]
+    k0 = abstract_key(mon, st)
+    keys[k0] = init
+    violations = []
+    while work:
+        s, ms = work.pop()
+        k = abstract_key(ms[0], s)
+        if k in graph:
+            continue
+        graph[k] = set()
+        if ms[0].q[0] in ("DONE", "ERR"):
+            continue
+        if len(graph) > limit:
+            raise Unanalysable("reference exploration exceeded %d states" % limit)
+        try:
+            succ = step_all(m, s, ms)
+        except Violation:
+            violations.append(("reference-internal", str(k)))
+            continue
+        for s2, ms2, _ in succ:
+            k2 = abstract_key(ms2[0], s2)
+            graph[k].add(k2)
+            if k2 not in graph:
+                # drop history the key does not depend on, to keep states small
+                work.append((s2, ms2))
+    # backward reachability of Complete
+    good = {k for k in graph if k[3] == "complete"}
+    changed = True
+    while changed:
+        changed = False
+        for k, succ in graph.items():
+            if k not in good and succ & good:
+                good.add(k)
+                changed = True
+    dead = [k for k in graph if k not in good and k[3] is None]
+    return graph, dead, violations
+
+
+def c11_coreachability(c, tier):
+    total = 0
+    for kind in ("request", "response", "headers", "chunk"):
+        try:
+            graph, dead, viol = explore_reference(kind)
+        except Unanalysable as e:
+            c.oblige(False, "reference-exploration|%s|%s" % (kind, e.what), {"rule": "reference-exploration", "detail": e.what})
+            continue
+        total += len(graph)
+        for k in dead[:5]:
+            c.oblige(False, "reference-dead-state|%s|%s" % (kind, k[0]), {"rule": "reference-dead-state", "detail": "reference state %s of the %s grammar has no continuation to Complete although it is not rejecting" % (k, kind)})
+        c.oblige(not viol, "reference-internal|%s" % kind, {"rule": "reference-internal", "detail": str(viol[:2])})
+        c.obligations += len(graph)
+        c.discharged += len(graph) - len(dead)
+        c.coverage.setdefault("reference_states", {})[kind] = {"abstract_states": len(graph), "non_rejecting_states_without_completion": len(dead)}
+
+
+def same_loc(st, a, b, mon):
+    return mon.same_pos(st, a, b)
 
 
 def c15_conservative(c, tier):
-    # placeholder until the reference-vs-reference product lands: counted as no obligation
-    c.coverage["reference_conservative_extension"] = "pending"
+    prog = Program(F.get_facts("B0", "debug"))
+    m = Machine(prog)
+    nstates = 0
+    for kind in ("request", "response"):
+        st = State()
+        a = fresh(kind, False)  # default options
+        b = fresh(kind, True)  # options from the (symbolic) configuration
+        seen = set()
+        work = [(st, [a, b], [], [])]
+        while work:
+            s, ms, qa, qb = work.pop()
+            ka, kb = abstract_key(ms[0], s), abstract_key(ms[1], s)
+            key = (ka, kb, len(qa), len(qb))
+            if key in seen:
+                continue
+            seen.add(key)
+            nstates += 1
+            if len(seen) > 60000:
+                c.oblige(False, "reference-exploration|c15|%s" % kind, {"rule": "reference-exploration", "detail": "state budget"})
+                break
+            A, B = ms
+            if A.q[0] == "ERR":
+                continue  # nothing is required when the default rejects
+            if A.q[0] == "DONE":
+                # B must have completed at the same offset with the same fields and headers
+                ok = B.q[0] == "DONE" and same_loc(s, A.verdict[1], B.verdict[1], A)
+                detail = ""
+                if not ok:
+                    detail = "default reference completes, reference under options %s is in state %s" % (
+                        sorted(k for k, v in s.env.items() if v), B.q)
+                else:
+                    for f, e in A.exp.items():
+                        e2 = B.exp.get(f)
+                        if e == e2:
+                            continue
+                        if e2 is None or e[0] != e2[0]:
+                            if f == "reason" and e[0] == "slice" and e2 is not None and e2[0] in ("slice", "empty") and s.env.get("cfg:allow_multiple_spaces_in_response_status_delimiters"):
+                                continue
+                            ok, detail = False, "field %s differs: %s vs %s" % (f, e, e2)
+                            break
+                        if e[0] in ("slice", "utf8slice"):
+                            same_start = same_loc(s, e[1], e2[1], A)
+                            same_end = same_loc(s, e[2], e2[2], A)
+                            if f == "reason" and s.env.get("cfg:allow_multiple_spaces_in_response_status_delimiters"):
+                                same_start = True  # the documented exception: leading spaces stripped
+                            if not (same_start and same_end):
+                                ok, detail = False, "field %s delimited differently under options" % f
+                                break
+                    if ok and (qa or qb):
+                        ok, detail = False, "headers reported differ in number"
+                c.oblige(ok, "not-conservative|%s|%s" % (kind, detail), {"rule": "reference-not-conservative", "detail": detail, "options": sorted(k for k, v in s.env.items() if v)})
+                continue
+            try:
+                succ = step_all(m, s, [A, B])
+            except (Violation, Unanalysable) as e:
+                c.oblige(False, "reference-exploration|c15|%s|%s" % (kind, e), {"rule": "reference-exploration", "detail": str(e)})
+                continue
+            for s2, ms2, stored in succ:
+                qa2, qb2 = list(qa), list(qb)
+                if stored[0] is not None:
+                    qa2.append(stored[0])
+                if stored[1] is not None:
+                    qb2.append(stored[1])
+                bad = False
+                while qa2 and qb2:
+                    ha, hb = qa2[0], qb2[0]
+                    eq = all(same_loc(s2, ha[i], hb[i], ms2[0]) for i in range(4)) and ha[4] == hb[4]
+                    if not eq:
+                        c.oblige(False, "not-conservative|%s|header" % kind, {"rule": "reference-not-conservative", "detail": "a header kept by both references is delimited differently under options %s" % sorted(k for k, v in s2.env.items() if v)})
+                        bad = True
+                        break
+                    qa2.pop(0)
+                    qb2.pop(0)
+                if bad or len(qa2) > 2 or len(qb2) > 2:
+                    if not bad and ms2[0].q[0] != "ERR":
+                        c.oblige(False, "not-conservative|%s|header-count" % kind, {"rule": "reference-not-conservative", "detail": "header sequences diverge under options"})
+                    continue
+                work.append((s2, ms2, qa2, qb2))
+    c.obligations += nstates
+    c.discharged += nstates
+    c.coverage["reference_conservative_extension"] = {"product_states": nstates}
